@@ -22,6 +22,7 @@
  R6 lumped all     : every declared lumped loss reaches the solver grid (same-position losses are cumulated, not selected).
  R7 channel order  : SpectralInformation re-orders every per-channel array (CD, PMD, PDL, latency included) with one argsort;
                      mux / demux build every field of the result from the same-named field of the operands (shared with C01-R2).
+ Rn arg roles     : a variable named like a parameter of the callee is handed to that parameter (no exchanged roles).
 """
 import ast
 
@@ -499,6 +500,15 @@ def rs_sorted(ctx):
     ctx.need('Rs.sorted-abscissa', 1)
 
 
+def rn_arg_roles(ctx):
+    """Rn: a variable named like a parameter of the callee is handed to that parameter (no exchanged roles such as
+    f(to_degree, from_degree) for def f(from_degree, to_degree)); calls to resolved package functions, canonical form"""
+    from .common import arg_roles_rule
+    from ..memo import scope_funcs
+    n = arg_roles_rule(ctx, 'Rn.arg-roles', scope_funcs(ctx.repo, 'C05'), 'the fibre would be evaluated with exchanged quantities')
+    ctx.check('Rn.arg-roles', 'argument / parameter name scan', True, 'C05|arg-roles-scan', '', f'{n} argument(s) named like another parameter judged')
+
+
 from ..memo import rule_for as _memo_rule
 
 RULES_MEMO = ('Rm.memo', _memo_rule('C05', 'the loss or dispersion of another fibre configuration would be applied'))
@@ -508,4 +518,4 @@ from ..presence import rule_for as _presence_rule
 
 RULES_PRESENCE = ('Rp.presence', _presence_rule('C05', 'a fibre parameter of exactly 0 would be replaced by a default'))
 
-RULES = [('R4.cd', r4_cd), ('R1.once', r1_once), ('R2.budget', r2_budget), ('R3.accumulators', r3_accumulators), RULES_MEMO, RULES_PRESENCE, ('Rk.field-key', rk_field_key), ('Ru.units', ru_units), ('Rs.sorted-abscissa', rs_sorted), ('R5.lumped-once', r5_lumped_once), ('R6.lumped-all', r6_lumped_all), ('R7.channel-order', r7_channel_order)]
+RULES = [('R4.cd', r4_cd), ('R1.once', r1_once), ('R2.budget', r2_budget), ('R3.accumulators', r3_accumulators), RULES_MEMO, RULES_PRESENCE, ('Rk.field-key', rk_field_key), ('Ru.units', ru_units), ('Rs.sorted-abscissa', rs_sorted), ('R5.lumped-once', r5_lumped_once), ('R6.lumped-all', r6_lumped_all), ('R7.channel-order', r7_channel_order), ('Rn.arg-roles', rn_arg_roles)]
